@@ -169,6 +169,55 @@ def z_proper_cross(a, b, c, d):
     )
 
 
+def _orient(p, q, r):
+    return (q[0] - p[0]) * (r[1] - p[1]) - (q[1] - p[1]) * (r[0] - p[0])
+
+
+def z_touch(a, b, c, d):
+    """closed segments ab and cd have a common point but do not cross properly (end point on
+    the other segment, or collinear overlap): a non-transversal contact"""
+    o1, o2 = _orient(a, b, c), _orient(a, b, d)
+    o3, o4 = _orient(c, d, a), _orient(c, d, b)
+
+    def opp0(x, y):
+        return zor(zand(x >= 0, y <= 0), zand(x <= 0, y >= 0))
+
+    allzero = zand(o1 == 0, o2 == 0, o3 == 0, o4 == 0)
+
+    def ovl(u0, u1, v0, v1):  # closed intervals [min(u), max(u)] and [min(v), max(v)] overlap
+        return z3.And(
+            zor(u0 <= v0, u0 <= v1, u1 <= v0, u1 <= v1),
+            zor(v0 <= u0, v0 <= u1, v1 <= u0, v1 <= u1),
+        )
+
+    boxes = z3.And(ovl(a[0], b[0], c[0], d[0]), ovl(a[1], b[1], c[1], d[1]))
+    inter = z3.Or(z3.And(z3.Not(allzero), opp0(o1, o2), opp0(o3, o4)), z3.And(allzero, boxes))
+    return z3.And(inter, z3.Not(z_proper_cross(a, b, c, d)))
+
+
+def z_transversal(polys_a, polys_b):
+    """every contact between a boundary edge of A and one of B is a proper crossing"""
+    cs = []
+    for va in polys_a:
+        for vb in polys_b:
+            na, nb = len(va), len(vb)
+            for i in range(na):
+                for j in range(nb):
+                    cs.append(z3.Not(z_touch(va[i], va[(i + 1) % na], vb[j], vb[(j + 1) % nb])))
+    return z3.And(cs) if cs else z3.BoolVal(True)
+
+
+def z_count_cross(polys_a, polys_b):
+    terms = []
+    for va in polys_a:
+        for vb in polys_b:
+            na, nb = len(va), len(vb)
+            for i in range(na):
+                for j in range(nb):
+                    terms.append(z3.If(z_proper_cross(va[i], va[(i + 1) % na], vb[j], vb[(j + 1) % nb]), 1, 0))
+    return z3.Sum(terms) if terms else z3.IntVal(0)
+
+
 # --------------------------------------------------------------------- exact
 
 
@@ -265,3 +314,44 @@ def x_moment(vs, a, b):
                 cy = comb(b, j1) * y0 ** (b - j1) * dy**j1
                 tot += cx * cy * dy * Fraction(1, i1 + j1 + 1)
     return tot / (a + 1)
+
+
+def x_seg_intersect(a, b, c, d):
+    o1, o2, o3, o4 = _orient(a, b, c), _orient(a, b, d), _orient(c, d, a), _orient(c, d, b)
+    if o1 == 0 and o2 == 0 and o3 == 0 and o4 == 0:
+        def ovl(u0, u1, v0, v1):
+            return max(min(u0, u1), min(v0, v1)) <= min(max(u0, u1), max(v0, v1))
+        return ovl(a[0], b[0], c[0], d[0]) and ovl(a[1], b[1], c[1], d[1])
+    return o1 * o2 <= 0 and o3 * o4 <= 0
+
+
+def x_transversal(polys_a, polys_b):
+    for va in polys_a:
+        for vb in polys_b:
+            na, nb = len(va), len(vb)
+            for i in range(na):
+                for j in range(nb):
+                    e = (va[i], va[(i + 1) % na], vb[j], vb[(j + 1) % nb])
+                    if x_seg_intersect(*e) and not x_proper_cross(*e):
+                        return False
+    return True
+
+
+def x_crossings(polys_a, polys_b):
+    """list of (ia, i, jb, j, u, v) for every proper crossing, exact parameters"""
+    out = []
+    for ia, va in enumerate(polys_a):
+        for jb, vb in enumerate(polys_b):
+            na, nb = len(va), len(vb)
+            for i in range(na):
+                for j in range(nb):
+                    a, b, c, d = va[i], va[(i + 1) % na], vb[j], vb[(j + 1) % nb]
+                    if x_proper_cross(a, b, c, d):
+                        v0 = (b[0] - a[0], b[1] - a[1])
+                        v1 = (d[0] - c[0], d[1] - c[1])
+                        df = (c[0] - a[0], c[1] - a[1])
+                        den = v0[0] * v1[1] - v0[1] * v1[0]
+                        u = (df[0] * v1[1] - df[1] * v1[0]) / den
+                        v = (df[0] * v0[1] - df[1] * v0[0]) / den
+                        out.append((ia, i, jb, j, u, v))
+    return out
